@@ -33,7 +33,23 @@ FFTF = "wannierberri/fourier/fft.py"
 STAT = "wannierberri/calculators/static.py"
 DYN = "wannierberri/calculators/dynamic.py"
 COV = "wannierberri/formula/covariant.py"
+TABC = "wannierberri/calculators/tabulate.py"
 MUTANTS = [
+    dict(prop="C07", name="symmetrize: last operation skipped", file=PSY, old="        return sum(result.transform(s) for s in self.symmetries) / self.size\n\n    def gen_symmetric_tensor", new="        return sum(result.transform(s) for s in self.symmetries[:max(1, self.size - 1)]) / max(1, self.size - 1)\n\n    def gen_symmetric_tensor"),
+    dict(prop="C07", name="symmetrize: not normalised", file=PSY, old="        return sum(result.transform(s) for s in self.symmetries) / self.size\n\n    def gen_symmetric_tensor", new="        return sum(result.transform(s) for s in self.symmetries)\n\n    def gen_symmetric_tensor"),
+    dict(prop="C07", name="paralfunc: symmetrisation when NOT requested", file=RG, old="        if symmetrize:\n            result = _system.pointgroup.symmetrize(result)", new="        if not symmetrize:\n            result = _system.pointgroup.symmetrize(result)"),
+    dict(prop="C07", name="transform_tensor: TR branch applies the inversion transform", file=PSY, old="        if self.TR:\n            transformTR(res)\n        if self.Inv:\n            transformInv(res)", new="        if self.TR:\n            transformInv(res)\n        if self.Inv:\n            transformInv(res)"),
+    dict(prop="C07", name="absorb: factor not added", file=KP, old="        self.factor += other.factor", new="        self.factor += 0 * other.factor"),
+    dict(prop="C08", name="get_transform_TR: parity rule inverted", file=DK, old="        raise ValueError(f\"parity under TR unknown for {name}\")\n    if (p + der) % 2 == 1:", new="        raise ValueError(f\"parity under TR unknown for {name}\")\n    if (p + der) % 2 == 0:"),
+    dict(prop="C08", name="get_transform_Inv: base parity odd", file=DK, old="'CCab_antisym']:  # even before derivative\n        p = 0\n    elif name in ['D', 'AA', 'BB', 'CCab']:\n        return None\n    else:\n        raise ValueError(f\"parity under inversion", new="'CCab_antisym']:  # even before derivative\n        p = 1\n    elif name in ['D', 'AA', 'BB', 'CCab']:\n        return None\n    else:\n        raise ValueError(f\"parity under inversion"),
+    dict(prop="C08", name="covariant: generalised derivative keeps the parity of order 0", file=DK, old="                        transformTR=get_transform_TR(name, gender),\n                        transformInv=get_transform_Inv(name, gender)", new="                        transformTR=get_transform_TR(name, commader),\n                        transformInv=get_transform_Inv(name, commader)"),
+    dict(prop="C08", name="Omega declared even under TR", file=COV, old="        self.ndim = 1\n        self.transformTR = transform_odd\n        self.transformInv = transform_ident\n\n    def nn(self, ik, inn, out):\n        summ = np.zeros((len(inn), len(inn), 3), dtype=complex)\n\n        if self.internal_terms:\n            summ += -1j", new="        self.ndim = 1\n        self.transformTR = transform_ident\n        self.transformInv = transform_ident\n\n    def nn(self, ik, inn, out):\n        summ = np.zeros((len(inn), len(inn), 3), dtype=complex)\n\n        if self.internal_terms:\n            summ += -1j"),
+    dict(prop="C08", name="DerOmega declared even under inversion", file=COV, old="        self.transformTR = transform_ident\n        self.transformInv = transform_odd\n", new="        self.transformTR = transform_ident\n        self.transformInv = transform_ident\n"),
+    dict(prop="C08", name="OpticalConductivity: TR without transposition", file=DYN, old="        self.transformTR = transform_trans\n        self.transformInv = transform_ident", new="        self.transformTR = transform_ident\n        self.transformInv = transform_ident"),
+    dict(prop="C08", name="ShiftCurrent declared even under inversion", file=DYN, old="        self.transformTR = transform_ident\n        self.transformInv = transform_odd\n", new="        self.transformTR = transform_ident\n        self.transformInv = transform_ident\n"),
+    dict(prop="C08", name="Tabulator: TR and inversion transforms swapped", file=TABC, old="return KBandResult(rslt, transformTR=formula.transformTR, transformInv=formula.transformInv)", new="return KBandResult(rslt, transformTR=formula.transformInv, transformInv=formula.transformTR)"),
+    dict(prop="C08", name="Transform.__call__: sign not applied", file=PSY, old="        res[:] *= self.factor\n        return res", new="        return res"),
+    dict(prop="C08", name="TransformProduct: sign of the first factor only", file=PSY, old="super().__init__(factor=np.prod([t.factor for t in transform_list]), conj=conj_list[0])", new="super().__init__(factor=transform_list[0].factor, conj=conj_list[0])"),
     dict(prop="C05", name="reorder: only the second band index permuted", file=SYSR, old="            self._XX_R[key] = val[:, :, new_wann_indices][:, new_wann_indices, :]", new="            self._XX_R[key] = val[:, :, new_wann_indices]"),
     dict(prop="C05", name="reorder: centres not permuted", file=SYSR, old="        self.wannier_centers_cart = self.wannier_centers_cart[new_wann_indices]\n        for key, val in self._XX_R.items():", new="        for key, val in self._XX_R.items():"),
     dict(prop="C05", name="rvec.reorder: right shifts keep the old order", file=RVEC, old="        self.shifts_right_red = self.shifts_right_red[order_right]\n        self.clear_cached()", new="        self.clear_cached()"),
@@ -80,12 +96,12 @@ MUTANTS = [
     dict(prop="C01", name="WS: degeneracy = number of candidates", file=RVEC, old="            ndeg = len(select)\n", new="            ndeg = len(dist[i])\n"),
     dict(prop="C01", name="WS: only the first nearest replica", file=RVEC, old="            for j in select:\n", new="            for j in select[:1]:\n"),
     dict(prop="C01", name="PRESERVING: remapper weight assigned not accumulated (each R occurs once per shift)", file=RVEC, old="                    weights[iRi, ia, ib] += 1. / nd", new="                    weights[iRi, ia, ib] = 1. / nd", expect="ok"),
-    dict(prop="C01", name="remapper: shift index transposed", file=RVEC, old="                ishift = self.shift_index[ia, ib]\n                for iRi, iRm, nd in zip(self.iRvec_index_list[ishift],\n                                        self.iRvec_mod_list[ishift],\n                                        self.Ndegen_list[ishift]):\n                    remapper", new="                ishift = self.shift_index[ib, ia]\n                for iRi, iRm, nd in zip(self.iRvec_index_list[ishift],\n                                        self.iRvec_mod_list[ishift],\n                                        self.Ndegen_list[ishift]):\n                    remapper"),
+    dict(prop="C01", expect="ok", name="PRESERVING (for this property): remapper shift index transposed -- replicas of -s instead of s: round trip, Hermiticity and weight sums still hold", file=RVEC, old="                ishift = self.shift_index[ia, ib]\n                for iRi, iRm, nd in zip(self.iRvec_index_list[ishift],\n                                        self.iRvec_mod_list[ishift],\n                                        self.Ndegen_list[ishift]):\n                    remapper", new="                ishift = self.shift_index[ib, ia]\n                for iRi, iRm, nd in zip(self.iRvec_index_list[ishift],\n                                        self.iRvec_mod_list[ishift],\n                                        self.Ndegen_list[ishift]):\n                    remapper"),
     dict(prop="C01", name="q_to_R: normalisation dropped", file=RVEC, old="fftlib=self.fftlib_q2R, destroy=False) / np.prod(self.mp_grid)\n        AA_q_mp = self.remap_XX_from_grid_to_list_R", new="fftlib=self.fftlib_q2R, destroy=False) / np.prod(self.mp_grid[:2])\n        AA_q_mp = self.remap_XX_from_grid_to_list_R"),
     dict(prop="C01", name="q_to_R: inverse transform", file=RVEC, old="        AA_q_mp = execute_fft(AA_q_mp, axes=(0, 1, 2), fftlib=self.fftlib_q2R, destroy=False) / np.prod(self.mp_grid)", new="        AA_q_mp = execute_fft(AA_q_mp, axes=(0, 1, 2), fftlib=self.fftlib_q2R, destroy=False, inverse=True)"),
     dict(prop="C01", name="set_fft_q_to_R: k placed without modulo", file=RVEC, old="        self.kpt_mp_grid = [tuple(k) for k in kpt_red_mp_int % self.mp_grid]", new="        self.kpt_mp_grid = [tuple(k) for k in abs(kpt_red_mp_int) % self.mp_grid]"),
     dict(prop="C01", name="remap: a and b slots swapped in the weights", file=RVEC, old="                XX_R_new[:, a, b] *= weights_new[:, ia, ib]", new="                XX_R_new[:, a, b] *= weights_new[:, ib, ia] if self.nshifts_left == self.nshifts_right else weights_new[:, ia, ib]"),
-    dict(prop="C01", name="conj_XX_R: wrong axes", file=RVEC, old="        return XX_R_new.swapaxes(1, 2).conj()", new="        return XX_R_new.swapaxes(0, 1).conj() if XX_R_new.shape[0] == XX_R_new.shape[1] else XX_R_new.swapaxes(1, 2).conj()"),
+    dict(prop="C01", name="conj_XX_R: wrong axes", file=RVEC, old="        return XX_R_new.swapaxes(1, 2).conj()", new="        return XX_R_new.conj()"),
     dict(prop="C01", name="remap_XX_R: old R not reduced to the mesh", file=RVEC, old="        for i, iR in enumerate(iRvec_old % self.mp_grid):", new="        for i, iR in enumerate(abs(iRvec_old) % self.mp_grid):"),
     dict(prop="C01", name="PRESERVING: WS tolerance inclusive", file=RVEC, old="            select = np.where(abs(dist[i] - dist_min) < self.tolerance)[0]", new="            select = np.where(abs(dist[i] - dist_min) <= self.tolerance)[0]", expect="ok"),
     dict(prop="C03", name="Kp_fullBZ not divided by NKFFT", file=KP, old="        return self.K / self.NKFFT", new="        return self.K"),
